@@ -1221,7 +1221,9 @@ class OdeSystem(object):
         return print_str
 
     def __getitem__(self, index):
-        if isinstance(index, int):
+        if isinstance(index, (int, np.integer)):
+            # (numpy integer scalars - the items of np.arange(len(system)) - are indices too, not times)
+            index = int(index)
             if index > self.counter:
                 raise IndexError(
                     "index {} out of bounds for integrations with {} steps".format(index, self.counter + 1))
